@@ -1,8 +1,8 @@
-\* design check with entries: one include from the full core pool (576 entries) x 24 axis sets x 16 flag seeds
+\* design check with entries: one include from the full core pool (576 entries) x 12 axis sets x 16 flag seeds
 CONSTANTS
   NZ = 2
   AxisVs <- EntVs
-  AxisPs <- EntPs2
+  AxisPs = {{}}
   AxisCs = {{}}
   AxisZs = {{}}
   AxisSs <- EntSs2
